@@ -133,6 +133,7 @@ class MEngine:
         dbg = os.environ.get("VERIF_DEBUG_INV")
         s2 = None          # set once the path's own solver gave up: abstraction solvers are used from then on
         solvers, absmemos, lvl_min, mlvl = [None, None], [{}, {}], 0, 0
+        decided = []
         while remaining:
             _n += 1
             if dbg and _n % 20 == 0:
@@ -164,6 +165,23 @@ class MEngine:
                     # of the path condition - weaker hypotheses, so at worst clauses are dropped needlessly
                     s2 = True
                     self._unknown_checks = getattr(self, "_unknown_checks", 0) + 1
+                    # what the path's own solver can still decide about the component literals that mention strings
+                    # (is this optional string empty, ...) is asked literal by literal and handed to the abstraction
+                    # solvers as facts about the abstracted atoms, so that the abstraction does not lose it
+                    decided = []
+                    for (_lit, e_) in lmap:
+                        if z3.is_true(e_) or z3.is_false(e_) or not _mentions_strings(e_):
+                            continue
+                        for cand in (e_, z3.Not(e_)):
+                            s.push()
+                            try:
+                                s.add(cand)
+                                rr = guarded_check(s, 800)
+                            finally:
+                                s.pop()
+                            if rr == z3.unsat:
+                                decided.append(z3.Not(cand) if cand is e_ else e_)
+                                break
             if m is None:
                 for lvl in range(lvl_min, 2):
                     # level 0: string atoms abstracted; level 1: everything outside QF Bool/Int/UF abstracted
@@ -171,7 +189,7 @@ class MEngine:
                         sx = z3.Solver()
                         sx.set("timeout", 5000)
                         sx.set("phase_selection", 5)
-                        for a_ in it.ctx.pc:
+                        for a_ in list(it.ctx.pc) + decided:
                             sx.add(_abstract_strings(a_, absmemos[lvl], hard=(lvl == 1)))
                         solvers[lvl] = sx
                     sx = solvers[lvl]
